@@ -8,10 +8,12 @@ package main
 
 import (
 	"go/ast"
+	"go/token"
 	"go/types"
 	"sort"
 	"strings"
 
+	"golang.org/x/tools/go/ast/astutil"
 	"golang.org/x/tools/go/packages"
 	"golang.org/x/tools/go/types/typeutil"
 )
@@ -199,9 +201,20 @@ func fixSignatures(mod map[string]*packages.Package, reviewed map[string]bool, c
 		if cur != nil {
 			// ---- reordered parameters ----
 			if paramNames(cur) == rs.names {
+				if sigString(cur) != rs.sig {
+					if n := fixPointerParams(mod, cur, rs.sig, changed); n != "" {
+						notes = append(notes, n)
+					}
+				}
 				continue
 			}
 			curNames := strings.Split(paramNames(cur), ",")
+			if len(curNames) < len(oldNames) && !cur.Type().(*types.Signature).Variadic() {
+				if n := fixParamObject(mod, reviewed, cur, rs.sig, oldNames, changed); n != "" {
+					notes = append(notes, n)
+				}
+				continue
+			}
 			if len(curNames) != len(oldNames) || len(oldNames) < 2 || cur.Type().(*types.Signature).Variadic() {
 				continue
 			}
@@ -317,6 +330,511 @@ func fixSignatures(mod map[string]*packages.Package, reviewed map[string]bool, c
 		}
 	}
 	return notes
+}
+
+// fixPointerParams: a parameter that the reviewed tree passes by value and the current tree by
+// pointer (`update T` → `update *T`), read only inside the function (selectors and explicit
+// dereferences in value position, no nil test, no store through it, not passed on), is put back:
+// the declaration takes T again, `*update` becomes `update`, every call passes `x` for `&x` and
+// `*p` for any other argument.
+func fixPointerParams(mod map[string]*packages.Package, cur *types.Func, oldSig string, changed map[*ast.File]*packages.Package) string {
+	if !strings.HasPrefix(oldSig, "(") {
+		return ""
+	}
+	depth, end := 0, -1
+	for i := 0; i < len(oldSig); i++ {
+		if oldSig[i] == '(' {
+			depth++
+		} else if oldSig[i] == ')' {
+			depth--
+			if depth == 0 {
+				end = i
+				break
+			}
+		}
+	}
+	if end < 0 {
+		return ""
+	}
+	oldTyps := splitTop(oldSig[1:end])
+	sig := cur.Type().(*types.Signature)
+	if sig.Params().Len() != len(oldTyps) || sig.Variadic() {
+		return ""
+	}
+	if sigString(cur)[strings.Index(sigString(cur), ")"):] == "" {
+		return ""
+	}
+	var idx []int
+	for i := 0; i < sig.Params().Len(); i++ {
+		ct := types.TypeString(sig.Params().At(i).Type(), pathQualifier)
+		switch {
+		case ct == oldTyps[i]:
+		case ct == "*"+oldTyps[i]:
+			idx = append(idx, i)
+		default:
+			return ""
+		}
+	}
+	if len(idx) == 0 {
+		return ""
+	}
+	fd, dp, df := declOf(mod, cur)
+	if fd == nil || fd.Body == nil {
+		return ""
+	}
+	calls, files, pkgs := callsOf(mod, cur)
+	if usedAsValue(mod, cur, calls) {
+		return ""
+	}
+	// the parameter objects
+	objs := map[types.Object]int{}
+	for _, i := range idx {
+		objs[sig.Params().At(i)] = i
+	}
+	// flat list of parameter fields (one name per field is required for the rewritten ones)
+	pos := 0
+	fieldOf := map[int]*ast.Field{}
+	for _, f := range fd.Type.Params.List {
+		n := len(f.Names)
+		if n == 0 {
+			n = 1
+		}
+		for k := 0; k < n; k++ {
+			if _, want := func() (int, bool) {
+				for _, i := range idx {
+					if i == pos {
+						return i, true
+					}
+				}
+				return 0, false
+			}(); want {
+				if len(f.Names) != 1 {
+					return ""
+				}
+				if _, isStar := f.Type.(*ast.StarExpr); !isStar {
+					return ""
+				}
+				fieldOf[pos] = f
+			}
+			pos++
+		}
+	}
+	// uses inside the body
+	okUse := map[*ast.Ident]bool{}
+	var derefs []*ast.StarExpr
+	bad := false
+	var walk func(n ast.Node, lhs bool)
+	walk = func(n ast.Node, lhs bool) {
+		ast.Inspect(n, func(m ast.Node) bool {
+			switch x := m.(type) {
+			case *ast.AssignStmt:
+				for _, l := range x.Lhs {
+					walk(l, true)
+				}
+				for _, r := range x.Rhs {
+					walk(r, false)
+				}
+				return false
+			case *ast.IncDecStmt:
+				walk(x.X, true)
+				return false
+			case *ast.UnaryExpr:
+				if x.Op.String() == "&" {
+					walk(x.X, true)
+					return false
+				}
+			case *ast.SelectorExpr:
+				if id, ok := x.X.(*ast.Ident); ok {
+					if _, isP := objs[dp.TypesInfo.Uses[id]]; isP {
+						if lhs {
+							bad = true
+						}
+						// a method call through the pointer could have a pointer receiver
+						if sel := dp.TypesInfo.Selections[x]; sel != nil && sel.Kind() != types.FieldVal {
+							bad = true
+						}
+						okUse[id] = true
+						return false
+					}
+				}
+				walk(x.X, lhs)
+				return false
+			case *ast.StarExpr:
+				if id, ok := x.X.(*ast.Ident); ok {
+					if _, isP := objs[dp.TypesInfo.Uses[id]]; isP {
+						if lhs {
+							bad = true
+						}
+						okUse[id] = true
+						derefs = append(derefs, x)
+						return false
+					}
+				}
+			}
+			return true
+		})
+	}
+	walk(fd.Body, false)
+	ast.Inspect(fd.Body, func(m ast.Node) bool {
+		if id, ok := m.(*ast.Ident); ok {
+			if _, isP := objs[dp.TypesInfo.Uses[id]]; isP && !okUse[id] {
+				bad = true
+			}
+		}
+		return true
+	})
+	if bad {
+		return ""
+	}
+	for _, c := range calls {
+		if len(c.Args) != len(oldTyps) {
+			return ""
+		}
+	}
+	// rewrite
+	for _, f := range fieldOf {
+		f.Type = f.Type.(*ast.StarExpr).X
+	}
+	astutil.Apply(fd.Body, func(c *astutil.Cursor) bool {
+		if se, ok := c.Node().(*ast.StarExpr); ok {
+			for _, d := range derefs {
+				if d == se {
+					c.Replace(se.X)
+					return false
+				}
+			}
+		}
+		return true
+	}, nil)
+	changed[df] = dp
+	for ci, c := range calls {
+		for _, i := range idx {
+			a := c.Args[i]
+			if u, ok := a.(*ast.UnaryExpr); ok && u.Op.String() == "&" {
+				c.Args[i] = u.X
+			} else {
+				c.Args[i] = &ast.StarExpr{X: &ast.ParenExpr{X: a}}
+			}
+		}
+		changed[files[ci]] = pkgs[ci]
+	}
+	return "normalisation: parameter(s) of " + cur.Name() + " passed by pointer for reading only are passed by value again, as on the reviewed tree"
+}
+
+// fixParamObject: several positional parameters of the reviewed tree were gathered into one
+// parameter of a struct type that did not exist there (`readLog(q, shard, rng, max)` →
+// `readLog(q, logQuery{…})`), the struct being read only, field by field, inside the function and
+// written as a composite literal at every call. Put back: the declaration takes the reviewed
+// parameters, `query.f` becomes the parameter that f stands for, every call passes the literal's
+// field values (the zero value for a field it leaves out) in the reviewed positions.
+func fixParamObject(mod map[string]*packages.Package, reviewed map[string]bool, cur *types.Func, oldSig string, oldNames []string, changed map[*ast.File]*packages.Package) string {
+	if !strings.HasPrefix(oldSig, "(") {
+		return ""
+	}
+	depth, end := 0, -1
+	for i := 0; i < len(oldSig); i++ {
+		if oldSig[i] == '(' {
+			depth++
+		} else if oldSig[i] == ')' {
+			depth--
+			if depth == 0 {
+				end = i
+				break
+			}
+		}
+	}
+	if end < 0 {
+		return ""
+	}
+	oldTyps := splitTop(oldSig[1:end])
+	if len(oldTyps) != len(oldNames) {
+		return ""
+	}
+	sig := cur.Type().(*types.Signature)
+	// the object parameter: a value of a new struct type of the module
+	objIdx := -1
+	var st *types.Struct
+	for i := 0; i < sig.Params().Len(); i++ {
+		n, ok := sig.Params().At(i).Type().(*types.Named)
+		if !ok || n.Obj().Pkg() == nil || mod[n.Obj().Pkg().Path()] == nil || reviewed["type "+n.Obj().Pkg().Path()+"."+n.Obj().Name()] {
+			continue
+		}
+		s2, ok := n.Underlying().(*types.Struct)
+		if !ok {
+			continue
+		}
+		if objIdx >= 0 {
+			return "" // two candidates
+		}
+		objIdx, st = i, s2
+	}
+	if objIdx < 0 || sig.Params().Len()-1+st.NumFields() != len(oldNames) {
+		return ""
+	}
+	// the other parameters keep name, type and relative order; the gap is filled by the fields
+	src := make([]int, len(oldNames)) // old position → current parameter index (>= 0) or -(field index)-1
+	used := map[int]bool{}
+	ci := 0
+	var gap []int
+	for oi := range oldNames {
+		for ci == objIdx {
+			ci++
+		}
+		if ci < sig.Params().Len() && sig.Params().At(ci).Name() == oldNames[oi] && types.TypeString(sig.Params().At(ci).Type(), pathQualifier) == oldTyps[oi] {
+			src[oi] = ci
+			ci++
+			continue
+		}
+		gap = append(gap, oi)
+	}
+	if len(gap) != st.NumFields() {
+		return ""
+	}
+	fieldFor := func(oi int, byName bool) int {
+		found := -1
+		for fi := 0; fi < st.NumFields(); fi++ {
+			if used[fi] || types.TypeString(st.Field(fi).Type(), pathQualifier) != oldTyps[oi] {
+				continue
+			}
+			if byName && !strings.EqualFold(st.Field(fi).Name(), oldNames[oi]) {
+				continue
+			}
+			if found >= 0 {
+				return -2
+			}
+			found = fi
+		}
+		return found
+	}
+	assigned := map[int]bool{}
+	for _, oi := range gap {
+		if fi := fieldFor(oi, true); fi >= 0 {
+			src[oi] = -fi - 1
+			used[fi] = true
+			assigned[oi] = true
+		}
+	}
+	for _, oi := range gap {
+		if assigned[oi] {
+			continue
+		}
+		fi := fieldFor(oi, false)
+		if fi < 0 {
+			return ""
+		}
+		src[oi] = -fi - 1
+		used[fi] = true
+	}
+	fd, dp, df := declOf(mod, cur)
+	if fd == nil || fd.Body == nil {
+		return ""
+	}
+	calls, files, pkgs := callsOf(mod, cur)
+	if usedAsValue(mod, cur, calls) {
+		return ""
+	}
+	objVar := sig.Params().At(objIdx)
+	fieldParam := map[string]string{} // field name → reviewed parameter name
+	for oi, sidx := range src {
+		if sidx < 0 {
+			fieldParam[st.Field(-sidx-1).Name()] = oldNames[oi]
+		}
+	}
+	// the reviewed names must be free in the body
+	clash := false
+	newNames := map[string]bool{}
+	for _, n := range fieldParam {
+		newNames[n] = true
+	}
+	ast.Inspect(fd.Body, func(m ast.Node) bool {
+		if id, ok := m.(*ast.Ident); ok && newNames[id.Name] {
+			if o := dp.TypesInfo.Defs[id]; o != nil {
+				clash = true
+			}
+			if o := dp.TypesInfo.Uses[id]; o != nil {
+				if v, isVar := o.(*types.Var); !isVar || !v.IsField() {
+					clash = true
+				}
+			}
+		}
+		return true
+	})
+	if clash {
+		return ""
+	}
+	// uses of the object: only `obj.f` in value position
+	okUse := map[*ast.Ident]bool{}
+	var sels []*ast.SelectorExpr
+	bad := false
+	var walk func(n ast.Node, lhs bool)
+	walk = func(n ast.Node, lhs bool) {
+		ast.Inspect(n, func(m ast.Node) bool {
+			switch x := m.(type) {
+			case *ast.AssignStmt:
+				for _, l := range x.Lhs {
+					walk(l, true)
+				}
+				for _, r := range x.Rhs {
+					walk(r, false)
+				}
+				return false
+			case *ast.IncDecStmt:
+				walk(x.X, true)
+				return false
+			case *ast.UnaryExpr:
+				if x.Op.String() == "&" {
+					walk(x.X, true)
+					return false
+				}
+			case *ast.SelectorExpr:
+				if id, ok := x.X.(*ast.Ident); ok && dp.TypesInfo.Uses[id] == types.Object(objVar) {
+					if lhs {
+						bad = true
+					}
+					if sel := dp.TypesInfo.Selections[x]; sel == nil || sel.Kind() != types.FieldVal || len(sel.Index()) != 1 {
+						bad = true
+					}
+					okUse[id] = true
+					sels = append(sels, x)
+					return false
+				}
+				walk(x.X, lhs)
+				return false
+			}
+			return true
+		})
+	}
+	walk(fd.Body, false)
+	ast.Inspect(fd.Body, func(m ast.Node) bool {
+		if id, ok := m.(*ast.Ident); ok && dp.TypesInfo.Uses[id] == types.Object(objVar) && !okUse[id] {
+			bad = true
+		}
+		return true
+	})
+	if bad {
+		return ""
+	}
+	// every call writes the object as a literal
+	type callPlan struct{ args []ast.Expr }
+	var plans []callPlan
+	for ci, c := range calls {
+		if len(c.Args) != sig.Params().Len() {
+			return ""
+		}
+		lit, ok := c.Args[objIdx].(*ast.CompositeLit)
+		if !ok {
+			return ""
+		}
+		vals := map[int]ast.Expr{}
+		for k, el := range lit.Elts {
+			if kv, isKV := el.(*ast.KeyValueExpr); isKV {
+				id, ok := kv.Key.(*ast.Ident)
+				if !ok {
+					return ""
+				}
+				fi := -1
+				for j := 0; j < st.NumFields(); j++ {
+					if st.Field(j).Name() == id.Name {
+						fi = j
+					}
+				}
+				if fi < 0 {
+					return ""
+				}
+				vals[fi] = kv.Value
+			} else {
+				vals[k] = el
+			}
+		}
+		args := make([]ast.Expr, len(oldNames))
+		for oi, sidx := range src {
+			if sidx >= 0 {
+				args[oi] = c.Args[sidx]
+				continue
+			}
+			fi := -sidx - 1
+			if v, ok := vals[fi]; ok {
+				args[oi] = v
+				continue
+			}
+			z := zeroExprFor(st.Field(fi).Type(), files[ci], pkgs[ci])
+			if z == nil {
+				return ""
+			}
+			args[oi] = z
+		}
+		plans = append(plans, callPlan{args})
+	}
+	// the declaration
+	var newList []*ast.Field
+	_, curTyps := flatParams(fd.Type.Params)
+	for oi, sidx := range src {
+		var te ast.Expr
+		if sidx >= 0 {
+			te = copyNode(curTyps[sidx]).(ast.Expr)
+		} else {
+			e, ok := typeExprIn(st.Field(-sidx-1).Type(), df, dp)
+			if !ok {
+				return ""
+			}
+			te = e
+		}
+		newList = append(newList, &ast.Field{Names: []*ast.Ident{ast.NewIdent(oldNames[oi])}, Type: te})
+	}
+	fd.Type.Params.List = newList
+	isSel := map[*ast.SelectorExpr]bool{}
+	for _, x := range sels {
+		isSel[x] = true
+	}
+	astutil.Apply(fd.Body, func(c *astutil.Cursor) bool {
+		if se, ok := c.Node().(*ast.SelectorExpr); ok && isSel[se] {
+			c.Replace(ast.NewIdent(fieldParam[se.Sel.Name]))
+			return false
+		}
+		return true
+	}, nil)
+	changed[df] = dp
+	for ci, c := range calls {
+		c.Args = plans[ci].args
+		changed[files[ci]] = pkgs[ci]
+	}
+	return "normalisation: the parameter object of " + cur.Name() + " (" + objVar.Type().String() + ", not on the reviewed tree) is spread over the reviewed parameters again"
+}
+
+// zeroExprFor: an expression for the zero value of t, valid in file f (nil if there is none to write).
+func zeroExprFor(t types.Type, f *ast.File, p *packages.Package) ast.Expr {
+	switch u := t.Underlying().(type) {
+	case *types.Basic:
+		info := u.Info()
+		var lit ast.Expr
+		switch {
+		case info&types.IsBoolean != 0:
+			lit = ast.NewIdent("false")
+		case info&types.IsString != 0:
+			lit = &ast.BasicLit{Kind: token.STRING, Value: `""`}
+		case info&types.IsNumeric != 0:
+			lit = &ast.BasicLit{Kind: token.INT, Value: "0"}
+		default:
+			return nil
+		}
+		if _, named := t.(*types.Named); named {
+			te, ok := typeExprIn(t, f, p)
+			if !ok {
+				return nil
+			}
+			return &ast.CallExpr{Fun: &ast.ParenExpr{X: te}, Args: []ast.Expr{lit}}
+		}
+		return lit
+	case *types.Pointer, *types.Slice, *types.Map, *types.Chan, *types.Interface, *types.Signature:
+		return ast.NewIdent("nil")
+	case *types.Struct, *types.Array:
+		te, ok := typeExprIn(t, f, p)
+		if !ok {
+			return nil
+		}
+		return &ast.CompositeLit{Type: te}
+	}
+	return nil
 }
 
 // joinComma: ", " if the signature has parameters, "" otherwise (for prefixing a receiver type).
